@@ -262,4 +262,4 @@ PARTS = [
     Part("service", eval_case, {"quick": 1000, "thorough": 30000}, strategy=strategy, min_nontrivial={"quick": 200, "thorough": 5000}),
     Part("direct", eval_direct, {"quick": 1500, "thorough": 40000}, strategy=direct_case, min_nontrivial={"quick": 400, "thorough": 10000}),
 ]
-MIN_SHARE = {"service": {"unequal-contributions": 0.3, "inserted-rows-shifted": 0.2, "inserted-rows-real": 0.2}, "direct": {"rows-inserted-afterwards": 0.3, "all_streams-default": 0.25, "all_streams-given": 0.09, "unequal-contributions": 0.3}}
+MIN_SHARE = {"service": {"unequal-contributions": 0.3, "inserted-rows-shifted": 0.2, "inserted-rows-real": 0.2}, "direct": {"rows-inserted-afterwards": 0.2, "all_streams-default": 0.25, "all_streams-given": 0.09, "unequal-contributions": 0.3}}
